@@ -38,7 +38,7 @@ def h_prime(env):
     shares = thresha.random_split(F, arg, t, m)
     env.check('randbelow_calls', party.n_randbelow == t * n)
     env.check('randbelow_bound', all(b == p for b in party.randbelow_log))
-    c = [[env.fresh(f'rb_p0_{h*t + j + 1}', 0, p) for j in range(t)] for h in range(n)]
+    c = [[env.var(f'rb_p0_{h*t + j + 1}') for j in range(t)] for h in range(n)]
     for i in range(m):
         for h in range(n):
             env.check(f'share_reduced[{i}]', (shares[i][h] >= 0) & (shares[i][h] < p))
